@@ -1,13 +1,15 @@
 """C13 - the client follows one consistent timeline of signed tree heads."""
 import sumdbmc
-from vcore import finish, replay_one, record_and_monitor
+from vcore import finish, replay_one, record_and_monitor, Infra
 
 RULE = ("E1: SumdbClient with two timelines A and B sharing a prefix of 0-3 records and diverging by 1-3 records each, a server "
         "that answers every request (records, signed heads, tiles) from its current timeline and switches timeline up to twice, one "
         "client across a restart or two clients sharing configuration and cache, cold and warm stored heads: ConfigChain, MemChain, "
         "SecurityIsReal, SecurityHasBoth, CacheAuthentic. E2: every behaviour replayed into the real client; observers: stored head only "
         "moves to a signed extension, no two inconsistent heads ever stored, a presented fork makes the lookup fail and leaves the "
-        "stored head alone, security reports carry both signed notes. E3: random forks at sizes up to 500 and heights up to 8. "
+        "stored head alone, security reports carry both signed notes; plus schedules in which a split-view server meets two "
+        "goroutines of one client (responses from both timelines and an install that had to be retried; found exhaustively under a "
+        "view, replayed through the gate scheduler): no two successful lookups carry mutually inconsistent heads. E3: random forks at sizes up to 500 and heights up to 8. "
         "Non-trivial = every behaviour (all involve two timelines).")
 
 
@@ -15,6 +17,14 @@ def run(ctx):
     ctx.build_harness()
     cfgs = sumdbmc.c13_configs(ctx.tier)
     out, _ = sumdbmc.run_configs(ctx, cfgs, workers_each=2, parallel=8, timeout=3000, label="C13")
+    # a split view meets two goroutines of one client: schedules of that shape, found exhaustively, replayed deterministically
+    out2, _ = sumdbmc.run_configs(ctx, sumdbmc.c13_scenario_configs(ctx.tier) + sumdbmc.c14_scenario_configs(ctx.tier), workers_each=6, parallel=3,
+                                  timeout=3000, label="C13scenario")
+    nscen = sum(1 for l in open(out2) if l.startswith('"'))
+    if nscen == 0:
+        raise Infra("the fork-race scenario search produced no schedule")
+    with open(out, "a") as fo:
+        fo.writelines(l for l in open(out2) if l.startswith('"'))
     rep = ctx.vh(["replay", "client", out])
     rep["violations"] = [v for v in rep.get("violations", []) if v.get("sig", "").startswith(("c13:", "behaviour:"))]
     ctx.add_report(rep, floor=1000 if ctx.quick() else 20000, engine="C13:replay")
